@@ -393,6 +393,14 @@ class Converter:
         if isinstance(val, values.SymbolValue):
             if isinstance(val.value, ir.Value):
                 return val.value
+            if isinstance(val.value, irbuilder.IRFunction):
+                # A nested function (@graph()) can only be used as a graph-valued attribute:
+                # it has no tensor value that could be an input or an output.
+                message = (
+                    f"{str(target) if target is not None else 'A name'!r} is bound to a nested "
+                    f"function, which cannot be used as a tensor value."
+                )
+                fail(info.msg(message) if info is not None else message)
         if isinstance(val, ir.Value):
             # An outer-scope ir.Value (e.g., from a closure variable) can be used directly.
             return val
